@@ -117,6 +117,28 @@ Theorem C08_too_long_rejected : forall w c n x,
 Proof. exact too_long_rejected. Qed.
 Print Assumptions C08_too_long_rejected.
 
+(* N-d arrays: the entries are counted on the flattened array, whatever the shape ((n,2), (2,n), ... hold 2n entries);
+   a 0-d array is refused *)
+Theorem C08_too_long_rejected_any_shape : forall w c n dims x,
+  dims <> [] -> (n < alen x)%nat -> store_nd w c AVertex n dims x = Err ValueErr.
+Proof. exact too_long_rejected_any_shape. Qed.
+Print Assumptions C08_too_long_rejected_any_shape.
+
+Theorem C08_shape_irrelevant : forall w c a n dims dims' x,
+  dims <> [] -> dims' <> [] -> run_num_nd w c a n dims x = run_num_nd w c a n dims' x.
+Proof. exact shape_irrelevant. Qed.
+Print Assumptions C08_shape_irrelevant.
+
+Theorem C08_zero_dim_rejected : forall w c a n x, exists e, store_nd w c a n [] x = Err e.
+Proof. exact zero_dim_rejected. Qed.
+Print Assumptions C08_zero_dim_rejected.
+
+Example C08_nd_nonvacuous :
+  store_nd Repaired CFloat AVertex 3 [3; 2]%nat (AFlt F64 [FInt 0; FInt 1; FInt 2; FInt 3; FInt 4; FInt 5]) = Err ValueErr
+  /\ run_num_nd Repaired CFloat AVertex 3 [1; 3]%nat (AFlt F64 [FInt 0; FInt 1; FInt 2])
+     = ODone (VF [FInt 0; FInt 1; FInt 2]) (RF64 [FInt 0; FInt 1; FInt 2]) (VF [FInt 0; FInt 1; FInt 2]).
+Proof. split; reflexivity. Qed.
+
 Theorem C08_unsupported_type_rejected :
   (forall w c a n, store w c a n AObj = Err TypeErr)
   /\ (forall c a n l, c <> CBoolean -> exists e, store Repaired c a n (ACplx l) = Err e)
